@@ -446,7 +446,8 @@ class Origins:
             elif "d" in e:
                 t = ("variant", t, e["d"])
             elif "i" in e:
-                t = ("index", t, "_%d" % e["i"])
+                it = self.of_local(e["i"]) if hasattr(self, "body") else ("unknown",)
+                t = ("index", t, it[1] if it[0] == "const" else "_%d" % e["i"])
             elif "ci" in e:
                 t = ("index", t, str(e["ci"]))
             else:
